@@ -264,6 +264,57 @@ def run_pop(unit) -> UnitResult:
 def run_aggregate(unit) -> UnitResult:
     r = UnitResult()
     mode = unit["mode"]
+    # one evaluation = one invocation of the fitness function, and the aggregate belongs to the components recorded
+    # (the fitness function below answers differently at every call, so a second call is visible in the values)
+    for evaluator in ("seq", "direct"):
+        calls = []
+
+        def counting(p):
+            calls.append(len(calls))
+            base = float(len(calls))
+            return base if mode.startswith("single") else [base, 10 * base]
+
+        if mode == "single-max":
+            pr0 = SingleObjectiveProblem(counting, minimize=False)
+        elif mode == "single-min":
+            pr0 = SingleObjectiveProblem(counting, minimize=True)
+        elif mode == "multi-FT":
+            pr0 = MultiObjectiveProblem([False, True], counting)
+        elif mode == "multi-boolT":
+            pr0 = MultiObjectiveProblem(True, counting)
+        else:
+            pr0 = MultiObjectiveProblem([False, False], counting, aggregate_fitness=lambda xs: xs[0] * 10 + xs[1])
+        rep0 = StubRepresentation(2)
+        inds0 = [Individual(rep0._new(i), rep0) for i in range(3)]
+        ev0 = SequentialEvaluator()
+        if evaluator == "seq":
+            ev0.evaluate(pr0, inds0)
+            fits = [i.get_fitness(pr0) for i in inds0]
+            counted = ev0.number_of_evaluations()
+        else:
+            fits = [pr0.evaluate(i.get_phenotype()) for i in inds0]
+            counted = 3
+        r.executions += 3
+        r.count("invocation_counts_checked")
+        w0 = {"unit": unit, "evaluator": evaluator}
+        if len(calls) != counted:
+            r.add_violation(Violation(PROP, "Problem.evaluate", "fitness-function-invoked-more-than-once", {"mode": mode}, w0,
+                                      f"{mode}: {counted} evaluations invoked the fitness function {len(calls)} times"))
+        for f in fits:
+            comps = list(f.fitness_components)
+            if mode == "single-max":
+                want = comps[0]
+            elif mode == "single-min":
+                want = -comps[0]
+            elif mode == "multi-FT":
+                want = comps[0] - comps[1]
+            elif mode == "multi-boolT":
+                want = -comps[0] - comps[1]
+            else:
+                want = comps[0] * 10 + comps[1]
+            if abs(f.maximizing_aggregate - want) > 1e-9:
+                r.add_violation(Violation(PROP, "Problem.evaluate", "aggregate-not-from-recorded-components", {"mode": mode}, w0,
+                                          f"{mode}: recorded components {comps} but aggregate {f.maximizing_aggregate} (expected {want})"))
     for vals in itertools.product([-1.0, 0.0, 2.0, 0.5], repeat=2):
         if mode == "single-max":
             pr = SingleObjectiveProblem(lambda p: vals[0], minimize=False)
@@ -392,6 +443,7 @@ def run_unit(unit) -> UnitResult:
 def finalize(cr):
     cr.require("histories")
     cr.require("gp_runs")
+    cr.require("invocation_counts_checked")
     cr.exhaustive = False
     cr.assumptions += [
         "OS-level scheduling inside pathos cannot be controlled: the virtual pool models the map/imap/uimap/amap contract "
